@@ -49,12 +49,19 @@ func (m ArMember) ArHeader() []byte {
 // WriteAr renders an archive. padLast=false omits the padding byte after an
 // odd-sized last member (both forms occur in the wild).
 func WriteAr(members []ArMember, padLast bool) []byte {
+	return WriteArPad(members, padLast, '\n')
+}
+
+// WriteArPad is WriteAr with a chosen padding byte: the format only asks
+// for data "padded to even length"; '\n' is customary, NUL is also written
+// by some tools.
+func WriteArPad(members []ArMember, padLast bool, pad byte) []byte {
 	out := []byte("!<arch>\n")
 	for i, m := range members {
 		out = append(out, m.ArHeader()...)
 		out = append(out, m.Data...)
 		if len(m.Data)%2 == 1 && (i < len(members)-1 || padLast) {
-			out = append(out, '\n')
+			out = append(out, pad)
 		}
 	}
 	return out
